@@ -49,6 +49,8 @@ def draw(rng, index):
         case["failing_class"] = cls
     elif roll < 0.5:
         case["inject_exception_at"] = rng.randrange(len(chain))
+        # a step may fail in any way: its own errors, a job timeout, a failing lookup or an OS error
+        case["inject_exception_type"] = rng.choice(["RuntimeError", "TimeoutError", "KeyError", "OSError", "TypeError", "AssertionError", "ValueError"])
     return case
 
 
@@ -90,7 +92,17 @@ def judge(case, record):
         previous_last = step["last_event"]
         if step.get("exception"):
             any_failure = True
-            counters["steps_with_injected_exception"] += 1
+            if step.get("injected"):
+                counters["steps_with_injected_exception"] += 1
+            elif step["exception"] in ("IterationBudget", "Deadlock") or (
+                    step["exception"] == "TimeoutError" and len(execs) > 3 * len(workers) * max(1, len(selected))):
+                # (the job timeout fired in virtual time after far more executions than once per vm and worker)
+                # the step's traversal did not come to an end (it kept executing or waiting)
+                problems.append(("step did not finish: its traversal kept executing or waiting until the job timeout / iteration budget",
+                                 f"step {index} {name}: {step['exception']}: {step.get('exception_message')}; {len(execs)} executions"))
+            else:
+                counters["steps_raising_on_their_own"] += 1
+                counters[f"steps_raising_on_their_own:{name}:{step['exception']}"] += 1
             continue
         counters["steps_audited"] += 1
         if any(end["status"] in ("FAIL", "ERROR") for end in ends.values()):
